@@ -74,11 +74,15 @@ structure Stack where
   rp : Option (Nat × Bool) := none     -- (maxRetries, returnLastFailure)
   ctxCreating : Bool := false          -- a Timeout or Hedge policy gives every attempt a child context
 
+/-- `rp2b`: the same retry policy with an exponential backoff configured as well (does not change the expectation: a
+Retry-After takes precedence, `retry_after_respected` holds for every delay configuration) -/
+def noB (s : String) : String := if s.endsWith "b" then (s.dropEnd 1).toString else s
+
 def parseStack (s : String) : Stack :=
   (s.splitOn ",").foldl (fun st p =>
     if p == "fb" then { st with fb := true }
-    else if p.startsWith "rpl" then { st with rp := some (nat! (p.drop 3).toString, true) }
-    else if p.startsWith "rp" then { st with rp := some (nat! (p.drop 2).toString, false) }
+    else if p.startsWith "rpl" then { st with rp := some (nat! (noB (p.drop 3).toString), true) }
+    else if p.startsWith "rp" then { st with rp := some (nat! (noB (p.drop 2).toString), false) }
     else if p == "to" || p == "hp" then { st with ctxCreating := true }
     else if p == "tos" then { st with ctxCreating := true, timeoutFires := true }
     else if p == "hps" then { st with ctxCreating := true, hedges := true }
